@@ -215,6 +215,9 @@ fn judge(r: &RunResult, reference: &BTreeMap<String, Vec<u8>>, kind: &str, crash
         }
         return None;
     }
+    if r.stderr.contains("VERIF-HANG") {
+        return Some(("run-does-not-terminate".into(), r.stderr.lines().last().unwrap_or("").to_string()));
+    }
     if r.stderr.contains("VERIF-TIMEOUT") {
         return Some(("machinery-timeout".into(), String::new()));
     }
@@ -375,14 +378,14 @@ pub fn run() -> Report {
     for ((cb, is_large), seq) in &calls {
         for c in seq {
             let answers: Vec<(&str, &'static str)> = match c.op.as_str() {
-                "write" | "writev" => vec![("ENOSPC", "write-error"), ("EIO", "write-error"), ("SHORT1", "write-error"), ("SHORTM", "benign"), ("EINTR", "benign")],
-                "open" => vec![("ENOSPC", "open-error"), ("EIO", "open-error")],
-                "rename" => vec![("ENOSPC", "rename-error"), ("EIO", "rename-error")],
+                "write" | "writev" => vec![("ENOSPC", "write-error"), ("EIO", "write-error"), ("SHORT1", "write-error"), ("SHORTM", "benign"), ("EINTR", "benign"), ("EPIPE", "write-error"), ("EDQUOT", "write-error"), ("EFBIG", "write-error"), ("EAGAIN", "write-error"), ("EBADF", "write-error"), ("ENOMEM", "write-error"), ("ETIMEDOUT", "write-error"), ("ESTALE", "write-error")],
+                "open" => vec![("ENOSPC", "open-error"), ("EIO", "open-error"), ("EACCES", "open-error"), ("EROFS", "open-error"), ("EDQUOT", "open-error"), ("ENOMEM", "open-error")],
+                "rename" => vec![("ENOSPC", "rename-error"), ("EIO", "rename-error"), ("EACCES", "rename-error"), ("EROFS", "rename-error"), ("EDQUOT", "rename-error"), ("EPIPE", "rename-error")],
                 "close" | "fsync" => vec![("EIO", "close-error")],
                 _ => vec![],
             };
             for (a, kind) in answers {
-                if *is_large && !thorough && !matches!(a, "ENOSPC" | "SHORTM") {
+                if *is_large && !thorough && !matches!(a, "ENOSPC" | "SHORTM" | "EPIPE") {
                     continue;
                 }
                 // SHORT1 / SHORTM need a write of more than one byte
@@ -416,7 +419,7 @@ pub fn run() -> Report {
             l += step;
         }
     }
-    rep.rule = "three enumerations on the real binary for csvdump / unspentcsvdump / balances: (1) input faults: every height x {blk file removed, emptied, truncated at EVERY byte, index offset past EOF, offset into the last 3 bytes}, also with the faulted block first / inner / last of a --start/--end range; (2) output faults with deviation bound 1 (complete): at EVERY intercepted open/write/rename/close call on the dump folder every answer of {ENOSPC, EIO, 1-byte short write then ENOSPC, n-1 short write, EINTR}, bound 2 (benign deviation followed by an error or a crash) on the small world, plus a byte-granular RLIMIT_FSIZE sweep; (3) crash points: process killed (_exit) immediately before EVERY intercepted call and after the last one; every failed or killed run on the small world is followed by an undisturbed shorter run (-e 2) in the same folder, which must be complete and identical to a fresh-folder run; small world (all writes at completion) and large world (4 MB buffers overflow mid-run); non-trivial = distinct fault / crash case".into();
+    rep.rule = "three enumerations on the real binary for csvdump / unspentcsvdump / balances: (1) input faults: every height x {blk file removed, emptied, truncated at EVERY byte, index offset past EOF, offset into the last 3 bytes}, also with the faulted block first / inner / last of a --start/--end range; (2) output faults with deviation bound 1 (complete): at EVERY intercepted open/write/rename/close call on the dump folder every answer of {ENOSPC, EIO, EPIPE, EDQUOT, EFBIG, EAGAIN, EBADF, ENOMEM, ETIMEDOUT, ESTALE, EACCES, EROFS as applicable to the call, 1-byte short write then ENOSPC, n-1 short write, EINTR}, bound 2 (benign deviation followed by an error or a crash) on the small world, plus a byte-granular RLIMIT_FSIZE sweep; (3) crash points: process killed (_exit) immediately before EVERY intercepted call and after the last one; every failed or killed run on the small world is followed by an undisturbed shorter run (-e 2) in the same folder, which must be complete and identical to a fresh-folder run; small world (all writes at completion) and large world (4 MB buffers overflow mid-run); non-trivial = distinct fault / crash case".into();
     rep.bound = json!({"cases": cases.len(), "intercepted_calls": calls.iter().map(|((cb, l), v)| (format!("{}{}", cb, if *l { "/large" } else { "/small" }), json!(v.len()))).collect::<serde_json::Map<_, _>>(), "deviation_bound": "1 complete, 2 on the small world (benign then error/crash)"});
     rep.not_covered = vec!["power-loss durability (fsync ordering) is not claimed by the property".into(), "SIGKILL at instants between two syscalls is equivalent to the crash point before the later syscall (the directory cannot change in between)".into()];
     let parts = par_fold(
